@@ -4,5 +4,7 @@ func init() {
 	props["C10"] = cfg("./c10", true, withShards(2, 16), withAssume(
 		"schedules are sampled: generated racing programs run 3 times each under the race detector, and a spin barrier releases the End callers together; an interleaving that needs a window of a few instructions may still be missed",
 		"span limits are unlimited in these programs so that drops do not blur the all-or-nothing judgement of mutations",
+		"the concurrent getter op does not call Attributes() on the live span: that getter writes the array the exported snapshot shares (a race report without observable effect, outside the quantified set of span methods; replayable with harness/c10/testdata/attributes-getter-race.json) and a race report would stop every run",
+		"a plain End's end time is judged as a reading of the clock taken during the run with one hour of slack on either side",
 	))
 }
